@@ -474,6 +474,19 @@ impl Setup {
     }
 }
 
+/// Deterministic scrambling of the insertion order of a store's entries (a function of the setup only, so that a
+/// replayed script builds exactly the same world).
+fn scramble_key(k: usize, i: u32) -> u64 {
+    let mut x = (i as u64 + 1).wrapping_mul(0x9E37_79B9_7F4A_7C15) ^ ((k as u64 + 1).wrapping_mul(0xD6E8_FEB8_6659_FD93));
+    x ^= x >> 29; x = x.wrapping_mul(0xBF58_476D_1CE4_E5B9); x ^= x >> 32;
+    x
+}
+fn scrambled(k: usize, items: &[(u32, i64)]) -> Vec<usize> {
+    let mut idx: Vec<usize> = (0..items.len()).collect();
+    idx.sort_by_key(|&j| scramble_key(k, items[j].0));
+    idx
+}
+
 fn build_world(s: &Setup) -> H {
     let mut world = World::new();
     world.register::<C0>(); world.register::<C1>(); world.register::<C2>(); world.register::<C3>();
@@ -561,15 +574,29 @@ fn build_world(s: &Setup) -> H {
         if s.stores[k].is_empty() { continue; }
         with_k!(k, C => {
             let mut st = world.write_storage::<C>();
-            for &(i, v) in &s.stores[k] {
+            // The final content is the `store` line, but it is reached through a history that a real program could have:
+            // insertions in a scrambled (deterministic) order, and for a quarter of the entries a remove + re-insert,
+            // so that storages with internal indirection (dense vectors) are NOT in their identity layout.
+            let order = scrambled(k, &s.stores[k]);
+            for &j in &order {
+                let (i, v) = s.stores[k][j];
                 st.insert(cur[i as usize], <C as HV>::mk(i, v)).expect("setup: insert");
+            }
+            let churn: Vec<usize> = order.iter().cloned().filter(|&j| scramble_key(k, s.stores[k][j].0) % 4 == 0).collect();
+            for &j in &churn {
+                let (i, _) = s.stores[k][j];
+                if st.remove(cur[i as usize]).is_none() { die("setup: churn remove found nothing"); }
+            }
+            for &j in churn.iter().rev() {
+                let (i, v) = s.stores[k][j];
+                st.insert(cur[i as usize], <C as HV>::mk(i, v)).expect("setup: re-insert");
             }
         });
     }
     let mut cs14 = ChangeSet::new();
     let mut cs15 = ChangeSet::new();
-    for &(i, v) in &s.stores[14] { cs14.add(cur[i as usize], v); }
-    for &(i, v) in &s.stores[15] { cs15.add(cur[i as usize], v); }
+    for &j in &scrambled(14, &s.stores[14]) { let (i, v) = s.stores[14][j]; cs14.add(cur[i as usize], v); }
+    for &j in &scrambled(15, &s.stores[15]) { let (i, v) = s.stores[15][j]; cs15.add(cur[i as usize], v); }
     // pending deletions: `Entities::delete` (= `Allocator::kill_atomic`) marks the entity in the `killed` set;
     // until the next `maintain()` it stays alive, keeps its components and is a member of every join mask.
     // NO maintain afterwards. (That the entity is still *yielded by the joins* is what the joins under test
